@@ -36,8 +36,11 @@ TRUSTED_BASE = ["Coq 8.16.1 kernel (coqc), vm_compute only for closed witnesses"
 ASSUMPTIONS = ["authenticate() returns true; no SessionConfig (_sf), no login schedule, clients without IP restriction",
                "threaded process model; the Logon is well-formed (the decoder accepts it)",
                "operator== / operator!= are applied to two distinct objects (the this == &that shortcut is tested separately)"]
-RULE = ("SessionID members on ALL pairs of identities over the CompID alphabet {A, AB, B, a} (exhaustive, 256) plus random longer "
-        "strings; logon histories: acceptor with own CompID x Logon SenderCompID x TargetCompID over {A, AB, B} x enforce_compids x "
+RULE = ("SessionID members on ALL pairs of identities over the CompID alphabet {A, AB, B, a} (exhaustive, 256) and over "
+        "{A, A->B, B->C, C, ->, empty, FIX.4.2} (exhaustive, 2401: the characters of the printable id, identities that print "
+        "identically), random re-splits of one text at different '->', random longer strings; logon histories with such "
+        "identities (own CompID containing '->', '-', '>', ':' or BeginString-like text, responses that are a different split of "
+        "the same printable id); logon histories: acceptor with own CompID x Logon SenderCompID x TargetCompID over {A, AB, B} x enforce_compids x "
         "client list (absent / containing / not containing the sender) x ResetSeqNumFlag (absent / Y), plus ResetSeqNumFlag=N, "
         "reset_sequence_numbers, send/recv_seqnum arguments, other HeartBtInt values, out-of-sequence logons, traffic before the logon, "
         "file persister with restart; initiator with identity x response CompIDs over the alphabet x enforce_compids, plus reset_sequence_numbers / "
@@ -47,6 +50,16 @@ RULE = ("SessionID members on ALL pairs of identities over the CompID alphabet {
 NSHARDS = 6
 IDS = ["A", "AB", "B"]
 SID_IDS = ["A", "AB", "B", "a"]
+# CompIDs made of the characters the printable session id "<Begin>:<sender>-><target>" itself uses
+SID_SPECIAL = ["A", "A->B", "B->C", "C", "->", "", "FIX.4.2"]
+# (sender, target) pairs that print identically: different splits of the same text
+AMBIGUOUS = [(("A->B", "C"), ("A", "B->C")),
+             (("X->", "Y"), ("X", "->Y")),
+             (("P", "Q->R->S"), ("P->Q->R", "S")),
+             (("P->Q", "R->S"), ("P", "Q->R->S")),
+             (("FIX.4.2", "A->B"), ("FIX.4.2->A", "B")),
+             (("A-", ">B"), ("A", "->B")),
+             (("M", "N:->O"), ("M->N:", "O"))]
 T0 = S.T0
 
 
@@ -170,6 +183,21 @@ def gen_cases(rng, tier):
         elif k == 3:
             w[2], w[3] = w[1], w[0]
         cs.append(sid_case(w[0], w[1], w[2], w[3], "sid-random"))
+    # identities over the id syntax's own characters: all pairs, plus random re-splits of one text
+    for s1 in SID_SPECIAL:
+        for t1 in SID_SPECIAL:
+            for s2 in SID_SPECIAL:
+                for t2 in SID_SPECIAL:
+                    cs.append(sid_case(s1, t1, s2, t2, "sid-special"))
+    for (a, b) in AMBIGUOUS:
+        cs.append(sid_case(a[0], a[1], b[0], b[1], "sid-ambiguous"))
+        cs.append(sid_case(b[0], b[1], a[0], a[1], "sid-ambiguous"))
+    for _ in range(400 if thorough else 120):
+        parts = [rng.choice(["A", "B", "C", "", ":", "-", ">", "FIX.4.2", "x"]) for _ in range(rng.randint(2, 5))]
+        text = "->".join(parts)
+        cuts = [i for i in range(len(text) - 1) if text[i:i + 2] == "->"]
+        i, j = rng.choice(cuts), rng.choice(cuts)
+        cs.append(sid_case(text[:i], text[i + 2:], text[:j], text[j + 2:], "sid-ambiguous"))
     cs.append(sid_case("", "", "", "", "sid-random"))
     cs.append(sid_case("", "A", "", "B", "sid-random"))
 
@@ -213,6 +241,25 @@ def gen_cases(rng, tier):
                "IN " + logon_msg(1 if reset2 == "Y" else rng.choice([3, 3, 1, 4]), snd, rng.choice([own, own, rng.choice(IDS)]),
                                  reset=reset2).hex()]
         add("|".join(ops), "acceptor-file-restart")
+
+    # identities that print identically / use the id syntax's characters: the comparison is on the pair
+    for (a, b) in AMBIGUOUS:
+        for own, other in ((a, b), (b, a)):
+            for ec in (1, 1, 0):
+                # the response mirrors `other` (same printable id as own, both CompIDs wrong), own, or one of each
+                add(initiator_case(own[0], own[1], other[1], other[0], ec, follow=rng.random() < 0.5), "initiator-ambiguous")
+            add(initiator_case(own[0], own[1], own[1], own[0], 1, follow=True), "initiator-ambiguous")
+            add(initiator_case(own[0], own[1], other[1], own[0], 1), "initiator-ambiguous")
+            add(initiator_case(own[0], own[1], own[1], other[0], 1), "initiator-ambiguous")
+            if ":" not in own[0]:
+                # acceptor whose own CompID / client names use those characters
+                add(acceptor_case(own[0], own[1], own[0], 1, rng.choice([None, [own[1]], [other[1]]]), rng.choice([None, "Y"]),
+                                  follow=True), "acceptor-ambiguous")
+                add(acceptor_case(own[0], other[1], other[0], 1, rng.choice([None, [own[1]], [other[1]]]), None), "acceptor-ambiguous")
+    for own in ("FIX.4.2", "->", "-", ">", "A:B"[:1] + "-"):
+        add(acceptor_case(own, "FIX.4.2", own, 1, None, None, follow=True), "acceptor-ambiguous")
+        add(initiator_case(own, "FIX.4.2:X", "FIX.4.2:X", own, 1, follow=True), "initiator-ambiguous")
+        add(initiator_case(own, "FIX.4.2:X", "X", "FIX.4.2:" + own, 1), "initiator-ambiguous")
 
     # (3) initiator: all combinations
     for own_s in IDS:
